@@ -4,8 +4,29 @@ import os
 import sys
 
 import runner
+import engine_probe
 
 VERIF = runner.VERIF
+
+
+def by_kernel(table, default=None):
+    """replay dispatcher: the native probe belongs to the kernel the failing obligation lives in"""
+    def fn(kb, t, pr, vals, order, rec):
+        f = table.get(kb.kernel, default)
+        return f(kb, t, pr, vals, order, rec) if f else None
+    return fn
+
+
+def by_kernel_file(table):
+    def fn(rec):
+        f = table.get(rec.get("kernel"))
+        if not f:
+            print("no native replay for kernel %s; obligation: %s" % (rec.get("kernel"), rec.get("obligation")))
+            return 2
+        return f(rec)
+    return fn
+
+
 
 
 def _known():
@@ -58,14 +79,17 @@ def _c05():
 def _c07():
     import number as nk
     import gate as gk
+    eng = engine_probe.replay_fn_for({"C04": "c04", "C06": "c06", "C07": "c07", "C19": "c19"})
     return {"builders": [gk.build, nk.build], "level": "proof", "explanation": "const gate: Data ctor invariant, verify_type*, cast helpers, go/unary frame",
-            "replay_fn": nk.replay_fn, "replay_file_fn": nk.replay_file}
+            "replay_fn": by_kernel({"gate": eng}, default=nk.replay_fn),
+            "replay_file_fn": lambda rec: (engine_probe.replay_file(rec) if rec.get("kernel") == "gate" else nk.replay_file(rec))}
 
 
 def _c06():
     import gate as gk
     import dispatchk as dk
-    return {"builders": [gk.build, dk.build], "level": "other", "explanation": "type gate"}
+    return {"builders": [gk.build, dk.build], "level": "other", "explanation": "type gate and arity gates",
+            "replay_fn": engine_probe.replay_fn_for({"C04": "c04", "C06": "c06", "C07": "c07", "C19": "c19"}), "replay_file_fn": engine_probe.replay_file}
 
 
 def _c09():
@@ -77,26 +101,10 @@ def _c09():
 def _c19():
     import loader as lk
     import usek as uk
-    return {"builders": [lk.build, uk.build], "level": "other", "explanation": "file loader: content = bytes minus one leading BOM",
-            "replay_fn": lk.replay_fn, "replay_file_fn": lk.replay_file}
-
-
-def by_kernel(table, default=None):
-    """replay dispatcher: the native probe belongs to the kernel the failing obligation lives in"""
-    def fn(kb, t, pr, vals, order, rec):
-        f = table.get(kb.kernel, default)
-        return f(kb, t, pr, vals, order, rec) if f else None
-    return fn
-
-
-def by_kernel_file(table):
-    def fn(rec):
-        f = table.get(rec.get("kernel"))
-        if not f:
-            print("no native replay for kernel %s; obligation: %s" % (rec.get("kernel"), rec.get("obligation")))
-            return 2
-        return f(rec)
-    return fn
+    eng = engine_probe.replay_fn_for({"C04": "c04", "C06": "c06", "C07": "c07", "C19": "c19"})
+    return {"builders": [lk.build, uk.build], "level": "other", "explanation": "file loader (content = bytes minus one leading BOM) and use() bookkeeping",
+            "replay_fn": by_kernel({"use": eng}, default=lk.replay_fn),
+            "replay_file_fn": lambda rec: (engine_probe.replay_file(rec) if rec.get("kernel") == "use" else lk.replay_file(rec))}
 
 
 def _c16():
@@ -123,7 +131,8 @@ def _c18():
 def _c04():
     import lookup as lu
     import scopeopt as so
-    return {"builders": [lu.build, so.build], "level": "other", "explanation": "variable lookup: hint encoding round trip, innermost-first search (bounded), find(s, hint)"}
+    return {"builders": [lu.build, so.build], "level": "other", "explanation": "variable lookup: hint encoding round trip, innermost-first search (bounded), find(s, hint)",
+            "replay_fn": engine_probe.replay_fn_for({"C04": "c04", "C06": "c06", "C07": "c07", "C19": "c19"}), "replay_file_fn": engine_probe.replay_file}
 
 
 PROPS = {"C04": _c04, "C18": _c18, "C12": _c12, "C16": _c16, "C19": _c19, "C09": _c09, "C07": _c07, "C06": _c06, "C20": _c20, "C01": _c01, "C05": _c05}
